@@ -128,9 +128,12 @@ DecDigitsAcc(a, acc) ==
 DecDigits(a) == IF a = <<>> THEN <<48>> ELSE DecDigitsAcc(a, <<>>)
 
 \* 10^n, memoised as a function so that TLC caches it
-RECURSIVE Pow10R(_)
-Pow10R(n) == IF n = 0 THEN One ELSE BMulSmall(Pow10R(n - 1), 10)
-Pow10Max == 820
-Pow10Tab == [n \in 0..Pow10Max |-> Pow10R(n)]
-Pow10(n) == Pow10Tab[n]
+\* 10^n by square-and-multiply (TLC does not cache definitions that go through RECURSIVE operators,
+\* so a table would be rebuilt at every use; this costs O(log n) big multiplications instead)
+Pow10Small == <<One, <<10>>, <<100>>, <<1000>>, <<10000>>, <<1696, 3>>, <<16960, 30>>, <<5760, 305>>, <<24832, 3051>>>>
+RECURSIVE Pow10(_)
+Pow10(n) == IF n <= 8 THEN Pow10Small[n + 1]
+            ELSE LET h == Pow10(n \div 2)
+                     sq == BMul(h, h)
+                 IN IF n % 2 = 0 THEN sq ELSE BMulSmall(sq, 10)
 =============================================================================
